@@ -123,6 +123,9 @@ func c20CheckScan(c *kit.Case, d *gen.Doc, truth []c20Obj, xf *kit.XFile, data [
 			continue
 		}
 		c.R.Count("complete_objects_read", 1)
+		if d.Cfg.Encrypted() {
+			continue // strings and stream data are ciphertext without a Reader
+		}
 		if !t.w.IsStream {
 			if !gen.Same(t.w.Value, val) {
 				c.Violationf(what+"/value", "%s\nobject %s read %s, written %s", ctx(), t.w.Ref, kit.Trunc(gen.Canon(val), 400), kit.Trunc(gen.Canon(t.w.Value), 400))
@@ -498,6 +501,41 @@ func TestVerifC20(t *testing.T) {
 		c.Distinct(fmt.Sprintf("es|%s|%s|%d", cfg.Cell(), strings.Join(d.Ops, " "), len(d.Data)))
 	})
 
+	// long unfiltered streams on non-seekable sinks, every stream length modulo
+	// the scanner's buffer size: the file is cut behind each stream (its length
+	// object is lost), so that the extent comes from the keyword wherever that
+	// falls relative to the buffer refills
+	r.Phase("keyword-at-any-buffer-offset", r.N(16, 160), func(c *kit.Case) {
+		cfg := c20Config(c)
+		cfg.NoFilters = true
+		cfg.Seekable = false
+		cfg.MaxOps = 2 + c.Rng.Intn(3)
+		seed := c.Rng.Uint64()
+		base := 1024 + c.Rng.Intn(3)*1024
+		for delta := 0; delta < 1024; delta++ {
+			cfg.LongBodyLen = base + delta
+			d, err := gen.BuildDoc(kit.NewRand(seed), cfg)
+			if err != nil {
+				c.Violationf("writer-refused-valid-call", "%v", err)
+				return
+			}
+			truth, xf := c20Truth(c, d)
+			if truth == nil {
+				return
+			}
+			for _, t := range truth {
+				if t.lenRef == nil {
+					continue
+				}
+				c20CheckScan(c, d, truth, xf, d.Data[:t.end], "truncated", false)
+				c20CheckScan(c, d, truth, xf, d.Data[:min(t.end+1, len(d.Data))], "truncated", false)
+				c.R.Count("cuts_behind_long_streams", 1)
+				c.R.Seen("keyword-offset-mod-1024", fmt.Sprint((t.end-t.start)%1024))
+			}
+		}
+		c.Distinct(fmt.Sprintf("kw|%s|%d|%d", cfg.Cell(), seed, base))
+	})
+
 	// a Writer file with an incremental update appended (the same references
 	// defined again, and new ones), whose own cross-reference section is then cut
 	// off or overwritten: every definition is listed, and the recovered Reader
@@ -522,7 +560,28 @@ func TestVerifC20(t *testing.T) {
 
 	// damage to the cross-reference data
 	r.Phase("xref-damage", r.N(400, 20000), func(c *kit.Case) {
+		c20XRefDamage(c, c20Config(c))
+	})
+
+	// the same damage to password-protected files: the listing is the same, and
+	// the recovered Reader (given the password) gives back what was written
+	r.Phase("xref-damage-encrypted", r.N(96, 5000), func(c *kit.Case) {
 		cfg := c20Config(c)
+		cfg.Version = gen.Versions[1+c.Index%8]
+		switch (c.Index / 8) % 3 {
+		case 0:
+			cfg.UserPW = "user-pw"
+		case 1:
+			cfg.OwnerPW = "owner-pw"
+		default:
+			cfg.UserPW, cfg.OwnerPW = "user-pw", "owner-pw"
+		}
+		c20XRefDamage(c, cfg)
+	})
+}
+
+func c20XRefDamage(c *kit.Case, cfg gen.DocConfig) {
+	{
 		d, err := gen.BuildDoc(c.Rng, cfg)
 		if err != nil {
 			c.Violationf("writer-refused-valid-call", "%v", err)
@@ -587,7 +646,7 @@ func TestVerifC20(t *testing.T) {
 					// line structure around its keyword are intact
 					continue
 				}
-				rd, err := fi.MakeReader(&pdf.ReaderOptions{ErrorHandling: pdf.ErrorHandlingStop})
+				rd, err := fi.MakeReader(&pdf.ReaderOptions{ErrorHandling: pdf.ErrorHandlingStop, Password: d.Password})
 				if err != nil && c.R.Replaying() {
 					os.WriteFile(filepath.Join(c.R.OutDir(), reg.name+"-"+fill+".pdf"), dam, 0o644)
 				}
@@ -596,8 +655,30 @@ func TestVerifC20(t *testing.T) {
 					continue
 				}
 				c.R.Count("readers_made_from_damaged_files", 1)
+				if cfg.Encrypted() {
+					c.R.Count("readers_made_from_damaged_encrypted_files", 1)
+				}
 				for _, t := range truth {
 					if t.w.IsStream {
+						if !cfg.Encrypted() {
+							continue
+						}
+						var got []byte
+						obj, err := rd.Get(t.w.Ref, true)
+						if stm, ok := obj.(*pdf.Stream); ok && err == nil {
+							var rc io.ReadCloser
+							rc, err = pdf.DecodeStream(rd, nil, stm)
+							if err == nil {
+								got, err = io.ReadAll(rc)
+								rc.Close()
+							}
+						}
+						if err != nil || !bytes.Equal(got, t.w.Body) {
+							c.Violationf(what+"/MakeReader-stream", "%s\n%s: stream %s read %d bytes %s, %v; written %d bytes %s", d.Cfg.String(), reg.name, t.w.Ref,
+								len(got), kit.Q(got), err, len(t.w.Body), kit.Q(t.w.Body))
+						} else {
+							c.R.Count("encrypted_streams_read_after_recovery", 1)
+						}
 						continue
 					}
 					got, err := rd.Get(t.w.Ref, true)
@@ -609,5 +690,5 @@ func TestVerifC20(t *testing.T) {
 			}
 		}
 		c.Distinct(fmt.Sprintf("%s|%s|%d", cfg.Cell(), strings.Join(d.Ops, " "), len(d.Data)))
-	})
+	}
 }
